@@ -20,6 +20,8 @@ pub struct Material {
     der: Vec<u8>,
     serial_hex: String,
     expired: bool,
+    /// what get_cert_info() must report for this certificate: serial | not-after (unix seconds) | subject CN
+    info_key: String,
 }
 
 fn make_material(name: &'static str, serial: u64, not_before_days: i64, not_after_days: i64) -> Material {
@@ -33,6 +35,9 @@ fn make_material_with(name: &'static str, serial: u64, not_before_days: i64, not
     params.not_before = now + time::Duration::days(not_before_days);
     params.not_after = now + time::Duration::days(not_after_days);
     params.serial_number = Some(rcgen::SerialNumber::from(serial));
+    params.distinguished_name = rcgen::DistinguishedName::new();
+    params.distinguished_name.push(rcgen::DnType::CommonName, format!("cn-{name}"));
+    let info_key = format!("{:x}|{}|cn-{name}", serial, params.not_after.unix_timestamp());
     let key = match key_of {
         Some(m) => rcgen::KeyPair::from_pem(&m.key_pem).expect("key from pem"),
         None => rcgen::KeyPair::generate().expect("key"),
@@ -48,6 +53,7 @@ fn make_material_with(name: &'static str, serial: u64, not_before_days: i64, not
         der: cert.der().to_vec(),
         serial_hex: format!("{:x}", serial),
         expired: not_after_days < 0,
+        info_key,
     }
 }
 
@@ -224,7 +230,12 @@ struct Snapshot {
 
 async fn snapshot(r: &CertReloader) -> Result<(Snapshot, TlsPair), String> {
     let (leaf, conn) = handshake(r).await?;
-    Ok((Snapshot { leaf, info_serial: r.get_cert_info().map(|i| i.serial_number.to_lowercase().replace(':', "").trim_start_matches('0').to_string()), count: r.get_reload_count(), last: r.get_last_reload() }, conn))
+    Ok((Snapshot { leaf, info_serial: r.get_cert_info().map(|i| {
+        let serial = i.serial_number.to_lowercase().replace(':', "").trim_start_matches('0').to_string();
+        let not_after = i.not_after.duration_since(std::time::UNIX_EPOCH).map(|d| d.as_secs() as i64).unwrap_or(-1);
+        let cn = i.subject.split("CN=").nth(1).map(|r| r.split(',').next().unwrap_or("").trim().to_string()).unwrap_or_else(|| i.subject.clone());
+        format!("{serial}|{not_after}|{cn}")
+    }), count: r.get_reload_count(), last: r.get_last_reload() }, conn))
 }
 
 fn apply_disk(op: &Op, st: &State, mats: &[Material]) {
@@ -345,9 +356,9 @@ async fn run_history(dir: &Path, mats: &[Material], h: &[Op], mid: Option<(&'sta
                             if mats[x].expired {
                                 v.push(("C18:expired-certificate-activated".into(), format!("{what}: a certificate that expired long ago is now served")));
                             }
-                            let want_serial = mats[x].serial_hex.trim_start_matches('0').to_string();
+                            let want_serial = mats[x].info_key.trim_start_matches('0').to_string();
                             if now.info_serial.as_deref() != Some(want_serial.as_str()) {
-                                v.push(("C18:reported-info-not-of-active-certificate".into(), format!("{what}: the active certificate is {} (serial {}), get_cert_info() reports serial {:?}", mats[x].name, want_serial, now.info_serial)));
+                                v.push(("C18:reported-info-not-of-active-certificate".into(), format!("{what}: the active certificate is {} (serial | not-after | CN = {}), get_cert_info() reports {:?}", mats[x].name, want_serial, now.info_serial)));
                             }
                             loaded_pairs.push(now.leaf.clone());
                         }
@@ -590,9 +601,9 @@ async fn watcher_level(rep: &mut Report, mats: &[Material], base: &Path) {
                     rep.violation("C18:expired-certificate-activated", &format!("{what}: a certificate that expired long ago is served"), json!({"engine": "LX-watcher", "history": done}));
                     break;
                 }
-                let want_serial = mats[x].serial_hex.trim_start_matches('0').to_string();
+                let want_serial = mats[x].info_key.trim_start_matches('0').to_string();
                 if now.info_serial.as_deref() != Some(want_serial.as_str()) {
-                    rep.violation("C18:reported-info-not-of-active-certificate", &format!("{what}: handshakes are served {} (serial {want_serial}), get_cert_info() reports serial {:?} (reload count {})", mats[x].name, now.info_serial, now.count), json!({"engine": "LX-watcher", "history": done}));
+                    rep.violation("C18:reported-info-not-of-active-certificate", &format!("{what}: handshakes are served {} (serial | not-after | CN = {want_serial}), get_cert_info() reports {:?} (reload count {})", mats[x].name, now.info_serial, now.count), json!({"engine": "LX-watcher", "history": done}));
                     break;
                 }
                 prev = now;
@@ -611,13 +622,13 @@ pub fn run(tier: Tier) -> i32 {
         "mid-reload disk changes are injected through the H10 synchronous points between the reload's file reads".into(),
     ];
     install_sync_hook();
-    let mats = vec![make_material("A", 0xA1, -1, 365), make_material("B", 0xB2, -1, 365), make_material("C", 0xC3, -1, 200), make_material("D-expired", 0xD4, -800, -400)];
+    let mats = vec![make_material("A", 0xA1, -1, 365), make_material("B", 0xB2, -1, 366), make_material("C", 0xC3, -1, 200), make_material("D-expired", 0xD4, -800, -400)];
     // materials that share attributes with others, as renewals do: A2 keeps A's key and serial (new validity),
     // B2 is a new key under B's serial and subject
     let mut mats = mats;
     let a2 = make_material_with("A2-renewed-same-key-and-serial", 0xA1, -1, 500, Some(&mats[0]));
     mats.push(a2);
-    mats.push(make_material("B2-rekeyed-same-serial", 0xB2, -1, 365));
+    mats.push(make_material("B2-rekeyed-same-serial", 0xB2, -1, 367));
     // certificate files that hold a chain: leaf first (the usual bundle), the CA first (a mis-ordered bundle: the
     // first block is what gets reported and, for rustls, what must match the key), and an expired leaf behind a valid CA
     let (ca_pem, ca_params, ca_key) = {
@@ -638,14 +649,17 @@ pub fn run(tier: Tier) -> i32 {
         p.not_before = now - time::Duration::days(if not_after_days < 0 { 800 } else { 1 });
         p.not_after = now + time::Duration::days(not_after_days);
         p.serial_number = Some(rcgen::SerialNumber::from(serial));
+        p.distinguished_name = rcgen::DistinguishedName::new();
+        p.distinguished_name.push(rcgen::DnType::CommonName, format!("cn-{name}"));
+        let info_key = format!("{:x}|{}|cn-{name}", serial, p.not_after.unix_timestamp());
         let key = rcgen::KeyPair::generate().expect("key");
         let issuer = rcgen::Issuer::from_params(&ca_params, &ca_key);
         let cert = p.signed_by(&key, &issuer).expect("leaf");
         let file = if ca_first { format!("{}{}", ca_pem, cert.pem()) } else { format!("{}{}", cert.pem(), ca_pem) };
-        Material { name, cert_pem: file, key_pem: key.serialize_pem(), der: cert.der().to_vec(), serial_hex: format!("{:x}", serial), expired: not_after_days < 0 }
+        Material { name, cert_pem: file, key_pem: key.serialize_pem(), der: cert.der().to_vec(), serial_hex: format!("{:x}", serial), expired: not_after_days < 0, info_key }
     };
-    mats.push(issued("L1-chain-leaf-first", 0xE1, 365, false));
-    mats.push(issued("L2-chain-CA-first", 0xE2, 365, true));
+    mats.push(issued("L1-chain-leaf-first", 0xE1, 368, false));
+    mats.push(issued("L2-chain-CA-first", 0xE2, 369, true));
     mats.push(issued("L3-expired-leaf-behind-valid-CA", 0xE3, -400, true));
     let base = PathBuf::from(format!("{}/scratch/c18-{}", verif_dir(), std::process::id()));
     let _ = std::fs::create_dir_all(&base);
